@@ -49,6 +49,8 @@ struct fault {
 #define MAXDIR 256
 #define MAXORDER 64
 
+static long g_pid = 4242;            /* what getpid() answers when a plan is loaded */
+static long g_clock_base = 1700000000L; /* seconds: what the clock functions start from when a plan is loaded */
 static int g_init_done;
 static int g_have_plan;
 static char g_root[PATH_MAX], g_input[PATH_MAX], g_output[PATH_MAX], g_dir[PATH_MAX];
@@ -212,6 +214,10 @@ static void load_plan(void) {
                 g_ent_hi = strtoull(c, NULL, 16);
                 g_ent_set = 1;
             }
+        } else if (strcmp(key, "pid") == 0) {
+            g_pid = strtol(rest, NULL, 10);
+        } else if (strcmp(key, "clock") == 0) {
+            g_clock_base = strtol(rest, NULL, 10);
         } else if (strcmp(key, "dirperm") == 0) {
             g_dirperm = strtoull(rest, NULL, 10);
             g_dirperm_set = 1;
@@ -271,7 +277,7 @@ int verifsim_version(void) { return 1; }
    nondeterminism the simulator has to own, or traces would differ between two runs of the same plan. */
 pid_t getpid(void) {
     load_plan();
-    if (g_have_plan) return 4242;
+    if (g_have_plan) return (pid_t)g_pid;
     return (pid_t)syscall(SYS_getpid);
 }
 
@@ -282,7 +288,7 @@ int clock_gettime(clockid_t clk, struct timespec *ts) {
     load_plan();
     if (g_have_plan && ts) {
         unsigned long n = __atomic_fetch_add(&g_clock_calls, 1, __ATOMIC_RELAXED);
-        ts->tv_sec = 1700000000L + (long)(n / 1000);
+        ts->tv_sec = g_clock_base + (long)(n / 1000);
         ts->tv_nsec = (long)(n % 1000) * 1000000L;
         trace("clock_gettime clk=%d call=%lu", (int)clk, n);
         return 0;
@@ -293,7 +299,7 @@ int gettimeofday(struct timeval *tv, void *tz) {
     load_plan();
     if (g_have_plan && tv) {
         unsigned long n = __atomic_fetch_add(&g_clock_calls, 1, __ATOMIC_RELAXED);
-        tv->tv_sec = 1700000000L + (long)(n / 1000);
+        tv->tv_sec = g_clock_base + (long)(n / 1000);
         tv->tv_usec = (long)(n % 1000) * 1000L;
         return 0;
     }
@@ -302,7 +308,7 @@ int gettimeofday(struct timeval *tv, void *tz) {
 time_t time(time_t *t) {
     load_plan();
     if (g_have_plan) {
-        time_t v = 1700000000L;
+        time_t v = g_clock_base;
         if (t) *t = v;
         return v;
     }
